@@ -4,15 +4,16 @@ From Coq Require Import String List ZArith Bool Lia Permutation Sorted.
 Import ListNotations.
 Require Import Pyrefact.SchedModel Pyrefact.SchedProofs Pyrefact.Splice.
 Require Import Pyrefact.SubstModel Pyrefact.SubstProofs Pyrefact.ExprModel Pyrefact.ExprProofs.
+Require Pyrefact.IgnoreModel.
 
 (* T14.1 no match => identity: with an empty list of matches subn yields nothing and returns the
    source byte for byte (restore = _substitute_original_(f)strings, which leave an unchanged text alone;
    the harness checks that on every source). *)
 Theorem T14_1_no_match_identity :
-  forall (valid : text -> bool) (wrap : range -> bool) (mlstr : text -> bool)
-         (restore : text -> text -> text) (src tmpl : text) (count : Z),
+  forall (valid : text -> bool) (equiv : text -> text -> bool) (wrap : range -> bool) (mlstr : text -> bool)
+         (restore : text -> text -> text) (src tmpl : text) (coms : option (list nat)) (count : Z),
     (forall s, restore s s = s) ->
-    subn_items src tmpl count [] = Some [] /\ subn_output valid wrap mlstr restore src [] = src.
+    subn_items src tmpl count [] = Some [] /\ subn_output valid equiv wrap mlstr restore src coms [] = src.
 Proof. exact no_match_identity. Qed.
 Print Assumptions T14_1_no_match_identity.
 
@@ -58,30 +59,31 @@ Theorem T14_3_applied_disjoint :
 Proof. exact subn_schedule_disjoint. Qed.
 Print Assumptions T14_3_applied_disjoint.
 
-(* T14.4 untouched text: for matches whose ranges lie inside the source, the text after the chain of
-   _do_rewrite calls (skip / plain / "pass" / re-indented candidates included) is the simultaneous
+(* T14.4 untouched text: for matches whose ranges lie inside the source, the text after the loop of
+   _apply_rewrites (refused whitespace-only transactions, skipped no-op members, and the _do_rewrite calls with
+   their plain / parenthesised / padded / "pass" / re-indented candidates) is the simultaneous
    splice of the source at the scheduled ranges, ascending: every character outside them is the
-   source's, in order. *)
+   source's, in order.  [coms] = the tokenizer's verdict on the source (input of has_ignore_comment). *)
 Theorem T14_4_untouched_text :
-  forall (valid : text -> bool) (wrap : range -> bool) (mlstr : text -> bool) (src : text)
-         (items : list (range * text)),
+  forall (valid : text -> bool) (equiv : text -> text -> bool) (wrap : range -> bool) (mlstr : text -> bool)
+         (coms : option (list nat)) (src : text) (items : list (range * text)),
     Forall (fun it => range_ok (length src) (fst it)) items ->
     exists asc : list (nrw Z),
       map nkey asc = rev (map nat_range (map (fun e : tkey * rewrite text => rrng (snd e))
-                                             (subn_sched_text src items)))
+                                             (subn_sched_text src coms items)))
       /\ chain_ok Z (length src) 0 asc
-      /\ subn_candidate valid wrap mlstr src items = build Z 0 src asc.
+      /\ subn_candidate valid equiv wrap mlstr src coms items = build Z 0 src asc.
 Proof. exact candidate_is_simultaneous_splice. Qed.
 Print Assumptions T14_4_untouched_text.
 
 (* the value subn returns is the source (validity rollback, T10.5) or that text after the
    string-restoring step *)
 Theorem T14_4_output_cases :
-  forall (valid : text -> bool) (wrap : range -> bool) (mlstr : text -> bool)
-         (restore : text -> text -> text) (src : text) (items : list (range * text)),
-    subn_output valid wrap mlstr restore src items = src
-    \/ subn_output valid wrap mlstr restore src items
-       = restore src (subn_candidate valid wrap mlstr src items).
+  forall (valid : text -> bool) (equiv : text -> text -> bool) (wrap : range -> bool) (mlstr : text -> bool)
+         (restore : text -> text -> text) (src : text) (coms : option (list nat)) (items : list (range * text)),
+    subn_output valid equiv wrap mlstr restore src coms items = src
+    \/ subn_output valid equiv wrap mlstr restore src coms items
+       = restore src (subn_candidate valid equiv wrap mlstr src coms items).
 Proof. exact output_cases. Qed.
 Print Assumptions T14_4_output_cases.
 
@@ -93,14 +95,34 @@ Theorem T14_5_never_on_ignored_lines :
 Proof. exact scheduled_not_ignored. Qed.
 Print Assumptions T14_5_never_on_ignored_lines.
 
-(* ... and every physical line of the source that matches the ignore regex is a contiguous, unchanged
+(* ... the test the scheduler applies to the lines it is handed (sched_ilines: the physical lines of
+   core.split_lines that match the ignore regex and carry a comment token, an unterminated last line extended by
+   the insertion point at the end of the text) IS core.has_ignore_comment as modelled for C20, for every range
+   of the text, insertion points included ... *)
+Theorem T14_5_scheduler_test_is_has_ignore_comment :
+  forall (src : text) (coms : option (list nat)) (r : range),
+    (fst r <= snd r)%Z -> (snd r <= Z.of_nat (length src))%Z ->
+    ignored (sched_ilines src coms) r = IgnoreModel.has_ignore (to_n src) coms r.
+Proof. exact sched_ignored_is_has_ignore. Qed.
+Print Assumptions T14_5_scheduler_test_is_has_ignore_comment.
+
+(* ... so no scheduled rewrite of subn is one that has_ignore_comment refuses ... *)
+Theorem T14_5_scheduled_has_no_ignore_comment :
+  forall (src : text) (coms : option (list nat)) (items : list (range * text)),
+    Forall (fun it => range_ok (length src) (fst it)) items ->
+    forall e, In e (subn_sched_text src coms items) ->
+    IgnoreModel.has_ignore (to_n src) coms (rrng (snd e)) = false.
+Proof. exact scheduled_has_no_ignore. Qed.
+Print Assumptions T14_5_scheduled_has_no_ignore_comment.
+
+(* ... and every physical line of the source that carries an ignore comment is a contiguous, unchanged
    piece of the rewritten text. *)
 Theorem T14_5_ignored_lines_verbatim :
-  forall (valid : text -> bool) (wrap : range -> bool) (mlstr : text -> bool) (src : text)
-         (items : list (range * text)),
+  forall (valid : text -> bool) (equiv : text -> text -> bool) (wrap : range -> bool) (mlstr : text -> bool)
+         (src : text) (coms : option (list nat)) (items : list (range * text)),
     Forall (fun it => range_ok (length src) (fst it)) items ->
-    forall l, In l (ignore_lines src) ->
-    exists pre post, subn_candidate valid wrap mlstr src items = pre ++ slice src l ++ post.
+    forall l, In l (ignore_lines src coms) ->
+    exists pre post, subn_candidate valid equiv wrap mlstr src coms items = pre ++ slice src l ++ post.
 Proof. exact ignored_lines_survive. Qed.
 Print Assumptions T14_5_ignored_lines_verbatim.
 
@@ -130,14 +152,14 @@ Theorem R14_8_self_substitution_refuted :
 Proof. exact self_substitution_refuted. Qed.
 Print Assumptions R14_8_self_substitution_refuted.
 
-(* T14.9 the "whitespace-only change" guard of _do_rewrite: it fires iff the replacement and the code it
-   replaces have the same non-blank lines after rstrip() ... *)
+(* T14.9 the "whitespace-only change" test (processing._same_significant_lines): the significant lines are equal iff
+   the replacement and the code it replaces have the same non-blank lines after rstrip() ... *)
 Theorem T14_9_skip_guard_spec :
   forall n code : text, ws_only_change n code = true <-> sig_lines n = sig_lines code.
 Proof. exact ws_only_change_spec. Qed.
 Print Assumptions T14_9_skip_guard_spec.
 
-(* ... so a skipped rewrite has, line by line, the indentation of the code it would have replaced: a change
+(* ... so such a replacement has, line by line, the indentation of the code it would have replaced: a change
    of block structure is never taken for white space ... *)
 Theorem T14_9_skipped_keeps_indentation :
   forall n code : text,
@@ -147,23 +169,49 @@ Theorem T14_9_skipped_keeps_indentation :
 Proof. exact skipped_keeps_indentation. Qed.
 Print Assumptions T14_9_skipped_keeps_indentation.
 
-(* ... and _do_rewrite leaves the text alone in exactly three situations (identical text, ignored line,
-   that guard -- which is not taken when a line of either text begins inside a string literal); otherwise it
-   splices in the replacement (in parentheses when it replaces a generator that shared those of its call),
-   "pass" for an empty one, or a re-indented copy. *)
+(* ... _apply_rewrites (after 287b37c / 4047a08) decides on the ORIGINAL source which scheduled rewrites reach
+   _do_rewrite: a member is a refusing one iff it changes the text, but only in blank lines / trailing blanks and
+   with no line of either text beginning inside a string literal ... *)
+Theorem T14_9_whitespace_only_member :
+  forall (mlstr : text -> bool) (src : text) (e : entry),
+    let code := slice src (rrng (snd e)) in
+    let n := rnew (snd e) in
+    ws_refused mlstr src e = true
+    <-> (n <> code /\ sig_lines n = sig_lines code /\ mlstr code = false /\ mlstr n = false).
+Proof. exact ws_refused_spec. Qed.
+Print Assumptions T14_9_whitespace_only_member.
+
+(* ... a scheduled rewrite is applied iff no member of its transaction is such a member and its own replacement
+   differs from the original text of its range (no re-test of the ignore comment on the partly rewritten text) ... *)
+Theorem T14_9_applied_decision :
+  forall (mlstr : text -> bool) (src : text) (sched : list entry) (e : entry),
+    In e (applicable mlstr src sched)
+    <-> (In e sched
+         /\ (forall e', In e' sched -> fst e' = fst e -> ws_refused mlstr src e' = false)
+         /\ rnew (snd e) <> slice src (rrng (snd e))).
+Proof. exact applicable_spec. Qed.
+Print Assumptions T14_9_applied_decision.
+
+(* ... and _do_rewrite(scheduled=True) leaves the text alone exactly when the replacement is the text already
+   there; otherwise it splices in the replacement (in parentheses when it replaces a generator that shared those
+   of its call, padded with blanks next to the brace of an f-string field), "pass" for an empty one, or a
+   re-indented copy. *)
 Theorem T14_9_do_rewrite_decision :
-  forall (valid : text -> bool) (wrap : range -> bool) (mlstr : text -> bool) (cur : text) (r : range)
+  forall (valid : text -> bool) (equiv : text -> text -> bool) (wrap : range -> bool) (cur : text) (r : range)
          (n : text),
     let code := slice cur r in
-    (n = code \/ ignored (ignore_lines cur) r = true
-     \/ (sig_lines n = sig_lines code /\ mlstr code = false /\ mlstr n = false) ->
-       do_rewrite valid wrap mlstr cur (r, n) = cur)
-    /\ (n <> code -> ignored (ignore_lines cur) r = false ->
-        ~ (sig_lines n = sig_lines code /\ mlstr code = false /\ mlstr n = false) ->
-        exists n', In n' (candidates (wrapped wrap r n))
-                   /\ do_rewrite valid wrap mlstr cur (r, n) = splice Z cur r n').
+    (n = code -> do_rewrite valid equiv wrap cur (r, n) = cur)
+    /\ (n <> code ->
+        exists n', In n' (candidates (pad_braces valid equiv cur r (wrapped wrap r n)))
+                   /\ do_rewrite valid equiv wrap cur (r, n) = splice Z cur r n').
 Proof. exact do_rewrite_decision. Qed.
 Print Assumptions T14_9_do_rewrite_decision.
+
+Theorem T14_9_pad_braces_cases :
+  forall (valid : text -> bool) (equiv : text -> text -> bool) (src : text) (r : range) (n : text),
+    pad_braces valid equiv src r n = n \/ pad_braces valid equiv src r n = SP :: n ++ [SP].
+Proof. exact pad_braces_cases. Qed.
+Print Assumptions T14_9_pad_braces_cases.
 
 (* moving the last statement of an if body out of the block is not a whitespace-only change; trailing
    blanks and blank lines are *)
@@ -188,14 +236,35 @@ Example T14_guard_example :
 Proof. exact safe_example. Qed.
 
 (* x = f(f(1))\ny = f(2)  # pyrefact: ignore   with f({{a}}) -> g({{a}}): three matches in yield order
-   outer, ignored, inner; exactly the outer one is applied *)
+   outer, ignored, inner; exactly the outer one is applied (tokenizer verdict: comment token on line 1) *)
 Example T14_subn_example :
   let src := text_of_string "x = f(f(1))
 y = f(2)  # pyrefact: ignore
 "%string in
   map (fun e => rrng (snd e))
-      (subn_sched_text src [((4, 11), text_of_string "g(f(1))"); ((16, 20), text_of_string "g(2)");
+      (subn_sched_text src (Some [1%nat]) [((4, 11), text_of_string "g(f(1))"); ((16, 20), text_of_string "g(2)");
                             ((6, 10), text_of_string "g(1)")]%Z)
   = [(4, 11)%Z]
-  /\ ignore_lines src = [(12, 41)%Z].
-Proof. vm_compute. split; reflexivity. Qed.
+  /\ ignore_lines src (Some [1%nat]) = [(12, 41)%Z]
+  /\ ignore_lines src (Some []) = [].
+Proof. vm_compute. repeat split; reflexivity. Qed.
+
+(* the application step no longer re-tests the ignore comment on the partly rewritten text: with
+   f({{x}}) -> {{x}} # pyrefact: ignore  on  x = f(1) + f(2)  both scheduled rewrites are applied, although the
+   first one (applied back to front) puts an ignore comment on the line of the second (the chain before 287b37c
+   refused the second: x = f(1) + 2 # pyrefact: ignore) *)
+Example T14_9_apply_example :
+  let src := text_of_string "x = f(1) + f(2)
+"%string in
+  subn_candidate (fun _ => true) (fun _ _ => true) (fun _ => false) (fun _ => false) src (Some [])
+    [((4, 8), text_of_string "1 # pyrefact: ignore"); ((11, 15), text_of_string "2 # pyrefact: ignore")]%Z
+  = text_of_string "x = 1 # pyrefact: ignore + 2 # pyrefact: ignore
+"%string.
+Proof. vm_compute. reflexivity. Qed.
+
+(* a set display pasted into the replacement field of an f-string is padded: f"{ {x, 2} }", not f"{{x, 2}}" *)
+Example T14_9_pad_example :
+  let src := text_of_string "f""{g(x)}"""%string in
+  pad_braces (fun _ => true) (fun _ _ => false) src (3, 7)%Z (text_of_string "{x, 2}")
+  = text_of_string " {x, 2} "%string.
+Proof. vm_compute. reflexivity. Qed.
